@@ -805,7 +805,7 @@ impl<'a> Ctx<'a> {
         if self.f.model && !self.in_template {
             kinds.push("mnest");
         }
-        if self.f.model && !self.in_template && self.prop == Prop::C11 {
+        if self.f.model && !self.in_template && (self.prop == Prop::C11 || self.r.chance(0.3)) {
             kinds.push("mobs");
         }
         if self.f.dyn_slots {
